@@ -29,7 +29,8 @@ ApplyOp(T, r) ==
        [] r.op = "batch_forget" -> ForgetAll(N, r.items)
        [] r.op \in {"open", "opendir"} -> IF ok THEN OpenH(N, r.op, r.p, r.h_ret) ELSE N
        [] r.op \in {"release", "releasedir"} -> ReleaseH(N, r.op, r.p, r.h, r.status)
-       [] r.op \in {"read", "write", "flush", "fsync", "getattr_h"} -> UseH(N, r.op, r.p, r.h, r.status)
+       [] r.op = "getattr_h" -> HandleFile(UseH(N, r.op, r.p, r.h, r.status), r.op, r.p, r.h, r.status, r.af)
+       [] r.op \in {"read", "write", "flush", "fsync"} -> UseH(N, r.op, r.p, r.h, r.status)
        [] r.op = "destroy" -> Destroy(N)
        [] r.op = "init" -> Inited(N, r.status)
        [] OTHER -> N
